@@ -361,6 +361,7 @@ def r20_1(ctx, u) -> None:
             binds = [d.info.get("value") for d in cfg.nodes if d.kind == "store" and not d.tag and grown.id in node_defs(d)]
             if binds and grown.id not in u.param_names() and all(
                     isinstance(b, (ast.List, ast.ListComp)) or (isinstance(b, ast.Call) and norm(b.func).split(".")[-1] == "list")
+                    or (isinstance(b, ast.BinOp) and isinstance(b.op, ast.Mult) and isinstance(b.left, ast.List))
                     for b in binds):
                 continue
         v = ctx.vals.expr(u, value_expr, n)
@@ -600,7 +601,8 @@ def r20_3(ctx) -> None:
         cfg = cfg_of(u)
         loops = _loops_with_pulls(ctx, u)
         puller = c01.holder_roles(ctx)["puller"].node.name
-        refill = [n for n in cfg.nodes if n.kind == "await" and not n.tag and f".{puller}(" in norm(n.ast)]
+        from .c05 import refill_holder
+        refill = [n for n in cfg.nodes if n.kind == "await" and not n.tag and refill_holder(n, puller) is not None]
         loop_asts = [a for (a, _p) in loops] + [a for r in refill for (k, a) in r.regions if k == "loop"]
         ops = []
         for n in cfg.nodes:
